@@ -52,6 +52,32 @@ def stress(binary, trace, seed, rounds, writers, readers, ops, lookups, offset=0
         raise
 
 
+def gen_schedules(work, seed, n):
+    """TLC simulates RepositorySim and prints one schedule (sequence of process/action steps) per behaviour."""
+    from verif import tlc
+    r = tlc(work, "RepositorySim", "RepositorySim.cfg", workers=1, timeout=1800, seed=seed,
+            extra=["-simulate", "num=%d" % n, "-depth", "90"])
+    out = work.path("schedules.ndjson")
+    k = 0
+    with open(out, "w") as f:
+        for line in r.out.splitlines():
+            line = line.strip()
+            if line.startswith('"SCHEDULE '):
+                sched = line[len('"SCHEDULE '):-1].replace('\\"', '"')
+                json.loads(sched)
+                f.write(sched + "\n")
+                k += 1
+    if k == 0:
+        raise Infra("TLC produced no schedules:\n" + r.out[-2000:])
+    return out, k
+
+
+def replay_schedules(work, binary, sched, tag=""):
+    tf = work.path("sched%s.trace.ndjson" % tag)
+    log(run_driver(binary, ["c07sched", "-schedules", sched, "-trace", tf]).strip())
+    return tf
+
+
 def race_run(work, seed, rounds):
     """The same stress under the Go race detector; a report is a violation of the lock discipline
     (Repository!LockDiscipline / InvSearchUnderLock) observed by other means."""
@@ -88,11 +114,13 @@ def run(tier, seed, replay):
         quick = tier == "quick"
         rounds, writers, readers, ops, lookups = (4, 4, 6, 60, 300) if quick else (40, 6, 8, 120, 500)
         trace = work.path("trace.ndjson")
-        with ThreadPoolExecutor(max_workers=3) as ex:
+        with ThreadPoolExecutor(max_workers=4) as ex:
             d = ex.submit(design, work, verdict)
             s = ex.submit(stress, binary, trace, seed, rounds, writers, readers, ops, lookups)
             rr = ex.submit(race_run, work, seed, 2 if quick else 12)
+            sg = ex.submit(gen_schedules, work, seed, 150 if quick else 4000)
             d.result()
+            sched, nsched = sg.result()
             try:
                 log(s.result().strip())
             except Crash as c:
@@ -120,7 +148,30 @@ def run(tier, seed, replay):
         if consumed != len(lines) or not lines:
             raise Infra("trace length mismatch")
 
+        # pattern S: TLC-generated schedules replayed through the trace-point gates
+        stf = replay_schedules(work, binary, sched)
+        slines = read_ndjson(stf)
+        sv = judge(work, stf, "_sched")
+        if sv["lines"] != len(slines):
+            raise Infra("schedule trace length mismatch")
+        sched_bad = sv["bad"]
+        if sched_bad:
+            # deterministic replays: a rejection must repeat
+            for i in range(2):
+                again = judge(work, replay_schedules(work, binary, sched, "_again%d" % i), "_sched%d" % i)["bad"]
+                keep = {(b["trace"], b["why"]) for b in again}
+                sched_bad = [b for b in sched_bad if (b["trace"], b["why"]) in keep]
+            if not sched_bad:
+                raise Infra("schedule replay rejections did not repeat (not reproducible)")
+
         known = load_known("C07")
+        for b in sched_bad[:5]:
+            ev = slines[b["line"] - 1]
+            if match_known(known, {"reason": b["why"]}):
+                continue
+            path = save_replay("C07", "schedule%d-seed%d" % (b["trace"], seed),
+                               [e for e in slines if e["trace"] == b["trace"]])
+            verdict.violation(path, "schedule replay: %s (%s)" % (b["why"], json.dumps(ev)[:300]))
         whys = sorted({b["why"] for b in bad})
         confirmed = set()
         if whys:
@@ -154,7 +205,7 @@ def run(tier, seed, replay):
         ops_n = sum(1 for ev in lines if ev["ev"] == "opstart")
         rej = sum(1 for ev in lines if ev["ev"] == "opend" and ev["result"] == "rejected")
         verdict.coverage.update({
-            "traces_validated_against_impl": sum(1 for ev in lines if ev["ev"] == "reset"),
+            "traces_validated_against_impl": sum(1 for ev in lines if ev["ev"] == "reset") + nsched,
             "evaluations": len(lines),
             "distinct_nontrivial": nlook,
             "rule": "free-running stress on the real repository (fx-assembled): %d writers (one source each; add / "
@@ -169,6 +220,9 @@ def run(tier, seed, replay):
             "lookups_checked": nlook,
             "events_rejected_by_tlc": len(bad),
             "race_detector_reports": races,
+            "schedules_generated_by_tlc": nsched,
+            "schedule_events_validated": len(slines),
+            "schedule_rejections": len(sched_bad),
             "binding_selftest": selftest,
             "samples": [ev for ev in lines[:400] if ev["ev"] in ("opstart", "repo.clone", "repo.swap", "lookup")][:6],
         })
